@@ -151,7 +151,7 @@ IsDes     == C.advan \in {6, 8, 9, 13}
 NC   == IF IsSpecial THEN NComp(C.advan) ELSE Len(C.comps)
 ObsN == IF C.obscmt # 0 THEN C.obscmt ELSE IF IsSpecial THEN DefObs(C.advan) ELSE ModelDefObs(C.comps)
 DoseN == IF C.dosecmt # 0 THEN C.dosecmt ELSE IF IsSpecial THEN DefDose(C.advan) ELSE ModelDefDose(C.comps)
-FOf(e, as) == RDiv(C.amt[ObsN], Scale(C.advan, ObsN, e, as))
+FOf(e, as) == IF ObsN \in 1..NC THEN RDiv(C.amt[ObsN], Scale(C.advan, ObsN, e, as)) ELSE UNDEF
 
 AdvRecord(e) ==
     LET a == C.advan
@@ -166,7 +166,9 @@ AdvRecord(e) ==
         dadt  |-> IF IsDes THEN [n \in 1..nc |-> Lookup(e, "DADT(" \o NumStr(n) \o ")")] ELSE <<>>,
         missing |-> SetToSeq((IF IsSpecial THEN RequiredParams(a, C.trans) \ as ELSE {})
                              \cup (IF IsGeneral /\ GeneralAmbiguous(nc, as) THEN {"ambiguous rate constant names"} ELSE {})),
-        f     |-> RDiv(amt[obs], Scale(a, obs, e, as)),
+        \* CMT data items must name a compartment of the model (PREDPP stops with an error otherwise)
+        cmtok |-> obs \in 1..nc /\ dosen \in 1..nc,
+        f     |-> IF obs \in 1..nc THEN RDiv(amt[obs], Scale(a, obs, e, as)) ELSE UNDEF,
         lag   |-> [n \in 1..nc |-> Lag(n, e, as)],
         bio   |-> [n \in 1..nc |-> Bio(n, e, as)],
         dose  |-> Dose(a, dosen, C.ratemode, e)]
